@@ -926,7 +926,12 @@ def transfer_mirror(rtext, mirror, log, where, variant="main", is_fn=True):
         drift = [(tag, " ".join(code[i1:i2])[:120], " ".join(rt[j1:j2])[:120]) for tag, i1, i2, j1, j2 in sm.get_opcodes() if tag != "equal"]
         if os.environ.get("VERIF_STRICT_MIRROR"):
             raise Lost("%s: mirror drift %s" % (where, drift[:6]))
-        log.append({"rule": "mirror-drift", "before": "mirror (authoring-time) tokens differ from /repo", "after": drift[:12], "where": where})
+        # a drift is STRUCTURAL when a changed token range (either side) contains statement structure: statements were added,
+        # removed, moved or re-nested, so loop invariants / lemma calls carried over by position may no longer sit where they
+        # were authored.  A LOCAL drift changes tokens inside expressions only (operators, names, literals).
+        STRUCT = {";", "{", "}", "for", "while", "loop", "if", "else", "match", "return", "break", "continue", "let", "=>"}
+        structural = any(tag != "equal" and (STRUCT & set(code[i1:i2]) or STRUCT & set(rt[j1:j2])) for tag, i1, i2, j1, j2 in sm.get_opcodes())
+        log.append({"rule": "mirror-drift", "before": "mirror (authoring-time) tokens differ from /repo", "after": drift[:12], "where": where, "structural": bool(structural)})
     ed = Edits(rtext)
     fa_r = FnAnatomy(rtext) if variant in ("reach", "exit") else None
     n_sig_code = None
